@@ -1,5 +1,7 @@
 import MxlVerif.Lemmas.C12Closure2
 import MxlVerif.Lemmas.C12Deriv
+import MxlVerif.Lemmas.C12SimHist
+import MxlVerif.Generated.C12Glue
 import MxlVerif.Model.C12Witness
 namespace Mxl.C12
 
@@ -168,6 +170,55 @@ theorem C12_closure_follows_parameters (c now : SContent) (hwf : now.wf = true) 
   have h := closure_follows c now cl cl' t xs J hi hcase hcall
   exact ⟨h, jacfn_sound now hwf t xs J h⟩
 
+/-! ### the `use_jacobian` glue of the Simulator, with the facts read from the current source -/
+
+/-- **the glue of the current source is the glue the model was written after**: `translate/c12.py` reads
+    `Simulator._initialise_integrator` (argument order of `lambdify`, where the closure takes the current
+    parameter values from, recompile-on-change, which values are remembered and passed, what the `except`
+    clause catches and does, what the integrator receives, which methods re-initialise) into `Generated.glue`;
+    every fact the state machine depends on is as `GlueOk` requires.  (`decide` on the generated record.) -/
+theorem C12_glue_generated : GlueOk Generated.glue = true := by decide
+
+/-- `solve_ivp` gets `jac=self.jacobian` for every method of `Scipy.method`'s `Literal`; the three implicit
+    ones (the only ones of scipy that use a Jacobian) are among them, so the harness's trajectory stratum
+    (which takes its method list from this generated definition) covers every Jacobian-using method. -/
+theorem C12_scipy_methods_generated :
+    ["Radau", "BDF", "LSODA"].all (Generated.scipyMethods.contains ·) = true := by decide
+
+/-- **every history of the Simulator.**  Build `Simulator(model, use_jacobian=True)` on `c` and apply ANY
+    sequence of `update_parameter(s)` / `scale_parameter(s)` / protocol steps (`setPar`), `clear_results` /
+    `update_variable(s)` (`reinit`) and Jacobian calls by the integrator (`call t x`), with the glue as it is in
+    the current source.  Then (`GoodOuts`) every matrix the integrator receives is exactly what `jac_fn(t, x)` of
+    a Simulator freshly built on the model's content AT THAT MOMENT returns — for a well-formed model: `D` of
+    its current equations at the state passed and at its current parameter values (derived parameters and
+    computed coefficients included) — and the integrator runs without a Jacobian only if the conversion had
+    failed when the integrator was last built (on a content that differs from the current one by parameter
+    values only).  Generalises `C12_closure_follows_parameters` from one step to all histories; the case
+    distinction there (`now = c` or the value tuple differs) is discharged here: after parameter updates
+    only, an equal value tuple means the very same content (`ParUpd.same`). -/
+theorem C12_sim_history (c : SContent) (ops : List SimOp) (s0 s : SimState) (outs : List SimOut)
+    (h0 : simInitG Generated.glue c = .ok s0) (hr : runG Generated.glue s0 ops = .ok (s, outs)) :
+    GoodOuts c ops outs :=
+  sim_history Generated.glue C12_glue_generated c ops s0 s outs h0 hr
+
+/-- with the facts of the current source the parameterised closure is the closure of `C12_closure_follows_parameters`,
+    and the constructor never raises because of the conversion: it installs the closure or falls back -/
+theorem C12_glue_refines (c now : SContent) (cl : JacClosure) (t : Rat) (xs : List Rat) :
+    cl.callG Generated.glue now t xs = cl.call now t xs ∧
+    installG Generated.glue true c = .ok (installJac c) ∧ installG Generated.glue false c = .ok none :=
+  ⟨callG_eq_call _ C12_glue_generated cl now t xs, installG_eq _ C12_glue_generated c, by
+    unfold installG; simp [(flags_of_ok _ C12_glue_generated).2.2.2.2.2.2.1]⟩
+
+/-- each repair of the glue is needed: without recompiling, without remembering the new values, or with the
+    remembered instead of the current values passed, the facts are rejected -/
+theorem C12_glue_repairs_needed :
+    GlueOk { expectedGlue with recompileOnChange := false } = false ∧
+    GlueOk { expectedGlue with storesValues := false } = false ∧
+    GlueOk { expectedGlue with callArgs := ["t", "x", "list(compiled)"] } = false ∧
+    GlueOk { expectedGlue with catchesAll := false } = false ∧
+    GlueOk { expectedGlue with lambdifyArgs := ["'time'", "model.get_variable_names()", "model.get_parameter_names()"] } = false := by
+  decide
+
 /-- the equations mention only variable symbols, plain-parameter symbols and data symbols (never
     `time`, a reaction, a derived quantity or a library function's own argument name) -/
 theorem C12_eqs_symbols (sc : SContent) (es : List SExpr) (h : toSymbolic sc = .ok es) :
@@ -218,6 +269,15 @@ example : DenOK (fun _ => 2) (.div (.mul (.sym "vmax") (.sym "s")) (.add (.sym "
   show (2 : Rat) + 2 ≠ 0
   decide +kernel
 example : evalS (fun _ => 2) (D "s" (.div (.mul (.sym "vmax") (.sym "s")) (.add (.sym "km") (.sym "s")))) = 1 / 4 := by
+  decide +kernel
+
+-- `C12_sim_history` is not vacuous: on the Michaelis–Menten witness the history
+-- call, update a parameter, call, update it back, call, re-initialise, call  runs through and hands over four matrices,
+-- and without recompiling (the unrepaired closure) the second matrix is the stale one
+example : (do let s0 ← simInitG Generated.glue witnessMM
+              let r ← runG Generated.glue s0 [.call 0 [1, 2], .setPar "c2" 7, .call 0 [1, 2], .setPar "c2" 5,
+                                              .call 0 [1, 2], .reinit, .call 0 [1, 2]]
+              pure (r.2.map fun (o : SimOut) => (o.getD none).isSome) : Except Err (List Bool)) = .ok [true, false, true, false, true, false, true] := by
   decide +kernel
 
 end Mxl.C12
